@@ -40,9 +40,12 @@ DAG = {
 # (N, MaxB, IsIface, DefChoices, RootExplicit, depth, WithGet)
 HIST = {
     ('C02', 'quick'): [(4, 2, 'Mixed4', 'NoDef', False, 5, False),
+                       (4, 1, 'Decl4', 'NoDef', False, 6, False),
                        (3, 2, 'Mixed3', 'NoDef', True, 5, False)],
     ('C02', 'thorough'): [(4, 2, 'Mixed4', 'NoDef', False, 7, False),
                           (4, 2, 'Mixed4', 'NoDef', True, 6, False),
+                          (4, 2, 'Decl4', 'NoDef', False, 6, False),
+                          (5, 1, 'Decl5', 'NoDef', False, 7, False),
                           (4, 2, 'AllIface4', 'NoDef', False, 6, False)],
     ('C03', 'quick'): [(4, 2, 'AllIface4', 'NoDef', False, 5, False),
                        (3, 3, 'AllIface3', 'NoDef', True, 5, False)],
@@ -60,7 +63,8 @@ SIM = {  # (N, MaxB, IsIface, Def, RootExplicit, depth, WithGet, num)
     'thorough': (6, 3, 'Mixed6', 'Def12', False, 30, True, 3000),
 }
 
-ISIFACE = {'AllIface3': [True] * 3, 'AllIface4': [True] * 4,
+ISIFACE = {'Decl4': [False] * 4, 'Decl5': [True] + [False] * 4,
+           'AllIface3': [True] * 3, 'AllIface4': [True] * 4,
            'AllIface5': [True] * 5, 'Mixed3': [True, True, False],
            'Mixed4': [True, True, False, False],
            'Mixed5': [True, True, True, False, False],
@@ -156,7 +160,8 @@ def main(pid, tier):
                 'PinnedC03': 'FALSE', 'PinnedC15': 'FALSE'},
                 invariants=INV[pid], view='View', constraint='Bound',
                 action_constraint='Emit')
-            res = run_tlc('MC_SpecGraph_hist', cfg, scratch=build.dir)
+            res = run_tlc('MC_SpecGraph_hist', cfg, scratch=build.dir,
+                          workers=1 if tier == 'quick' else None)
             name = 'hist N=%d MaxB=%d %s %s root_explicit=%s depth=%d' % (
                 N, maxb, isif, defc, rootx, depth)
             v.add_tlc(res, name)
